@@ -278,11 +278,14 @@ func isErrorReturn(r *ssa.Return, ei int) bool {
 }
 
 // checkChunkSizeApplied implements C01.csz.
-func checkChunkSizeApplied(c *Ctx) {
+func checkChunkSizeApplied(c *Ctx) { checkChunkSizeAppliedAs(c, "C01.csz") }
+
+// checkChunkSizeAppliedAs runs the chunk-size sibling rules under the given rule id.
+func checkChunkSizeAppliedAs(c *Ctx, rule string) {
 	P, R := c.P, c.R
 	rm := P.Func("rtmp", "(*Protocol).ReadMessage")
 	wp := P.Func("rtmp", "(*Protocol).WritePacket")
-	if !R.Anchor(rm != nil && wp != nil, "C01.csz", "rtmp.(*Protocol).ReadMessage/WritePacket") {
+	if !R.Anchor(rm != nil && wp != nil, rule, "rtmp.(*Protocol).ReadMessage/WritePacket") {
 		return
 	}
 	// non-constant stores to a settings' chunkSize reachable from an entry point, by role
@@ -303,7 +306,7 @@ func checkChunkSizeApplied(c *Ctx) {
 		return out
 	}
 	rd := find(rm, "Protocol.input.opt.chunkSize")
-	R.Check(len(rd) > 0, "C01.csz", "rtmp|reader|applies-peer-chunk-size", P.Pos(rm.Pos()),
+	R.Check(len(rd) > 0, rule, "rtmp|reader|applies-peer-chunk-size", P.Pos(rm.Pos()),
 		"the reader applies the peer's Set Chunk Size to its input settings",
 		"the reader never applies a received Set Chunk Size to its input settings: every following message larger than the old chunk size is mis-framed", nil)
 	// every exported way to put a message on the wire: a Set Chunk Size message is a message of type 1 whoever built it
@@ -314,12 +317,12 @@ func checkChunkSizeApplied(c *Ctx) {
 		if entry != "(*Protocol).WritePacket" {
 			key += "|" + entry
 		}
-		if !R.Anchor(wfn != nil, "C01.csz", "rtmp."+entry) {
+		if !R.Anchor(wfn != nil, rule, "rtmp."+entry) {
 			continue
 		}
 		wr := find(wfn, "Protocol.output.opt.chunkSize")
 		if len(wr) == 0 {
-			R.Fail("C01.csz", key, P.Pos(wfn.Pos()),
+			R.Fail(rule, key, P.Pos(wfn.Pos()),
 				"a Set Chunk Size message sent through "+entry+" is never applied to this endpoint's own output settings: the peer switches to the announced size while this writer keeps chunking with the old one, so every later message longer than the smaller of the two is mis-framed", nil)
 			continue
 		}
@@ -337,7 +340,7 @@ func checkChunkSizeApplied(c *Ctx) {
 				}
 			}
 		}
-		R.Check(ok, "C01.csz", key, P.InstrPos(wr[0]),
+		R.Check(ok, rule, key, P.InstrPos(wr[0]),
 			"the writer applies its own announced chunk size after the announcing message was flushed",
 			"the writer's own chunk size is not applied strictly after the announcing Set Chunk Size message was flushed (the announcement itself must still be chunked with the old size)", nil)
 	}
